@@ -829,4 +829,89 @@ theorem interface_span (fuel : Nat) (c' : List String) (cs ts : List Token) (n :
   show (Decl.interface n c mn fl flp methods props p).pos = _
   rw [hp, hts, spanPos_eq_tokSpan]
 
+
+/-! ## 4. in terms of the source text -/
+
+theorem advance_no_newline (line col : Nat) (w : List Char) (h : '\n' ∉ w) : advance line col w = (line, col + w.length) := by
+  induction w generalizing col with
+  | nil => simp [advance]
+  | cons c w ih =>
+    have hc : c ≠ '\n' := fun he => h (by simp [he])
+    have hw : '\n' ∉ w := fun hm => h (by simp [hm])
+    simp only [advance, beq_iff_eq, hc, if_false]
+    rw [ih _ hw]; simp only [List.length_cons, Prod.mk.injEq, true_and]; omega
+
+/-- **positions of type references in the source text**: for a successfully lexed text and a type reference parsed
+    from (a suffix `ts` of) its tokens, the recorded start is the line/column (`advance 1 0`) reached after the text `p1`
+    in front of the first consumed token, and the recorded end is the line/column of the last consumed token plus its
+    length — which is the line/column reached after the last consumed token's text `p2 ++ w2` whenever that text
+    contains no line break (it is a name or one of `<`, `,`, `>`, `?`) -/
+theorem dataType_text_span {src : String} {toks before ts : List Token} (hl : lex src = some toks)
+    (hts : toks = before ++ ts) {fuel : Nat} {t : TypeRef} {rest : List Token} (h : dataType fuel ts = some (t, rest)) :
+    ∃ pre a b, ts = pre ++ rest ∧ pre.head? = some a ∧ pre.getLast? = some b ∧
+      ∃ p1 w1 q1 p2 w2 q2, src.toList = p1 ++ w1 ++ q1 ∧ a.tk.text.toList = w1 ∧
+        (t.pos.sl, t.pos.sc) = advance 1 0 p1 ∧
+        src.toList = p2 ++ w2 ++ q2 ∧ b.tk.text.toList = w2 ∧
+        (t.pos.el, t.pos.ec) = ((advance 1 0 p2).1, (advance 1 0 p2).2 + w2.length) ∧
+        ('\n' ∉ w2 → (t.pos.el, t.pos.ec) = advance 1 0 (p2 ++ w2)) := by
+  obtain ⟨pre, a, b, h1, ha, hb, hs, he⟩ := dataType_span_first_last fuel ts t rest h
+  have hamem : a ∈ toks := by
+    rw [hts, h1]; simp only [List.mem_append]
+    exact Or.inr (Or.inl (List.mem_of_mem_head? ha))
+  have hbmem : b ∈ toks := by
+    rw [hts, h1]; simp only [List.mem_append]
+    exact Or.inr (Or.inl (List.mem_of_getLast? hb))
+  obtain ⟨p1, w1, q1, hs1, _, ht1, _, hst1, _⟩ := lex_token_position hl hamem
+  obtain ⟨p2, w2, q2, hs2, _, ht2, hlen2, hst2, _⟩ := lex_token_position hl hbmem
+  have hbl : b.line = (advance 1 0 p2).1 := congrArg Prod.fst hst2
+  have hbc : b.col = (advance 1 0 p2).2 := congrArg Prod.snd hst2
+  have hend : (t.pos.el, t.pos.ec) = ((advance 1 0 p2).1, (advance 1 0 p2).2 + w2.length) := by
+    rw [he, hbl, hbc, hlen2]
+  refine ⟨pre, a, b, h1, ha, hb, p1, w1, q1, p2, w2, q2, hs1, ht1, by rw [hs, hst1], hs2, ht2, hend, ?_⟩
+  intro hnl
+  rw [hend, advance_append, advance_no_newline _ _ _ hnl]
+
+/-! ## 5. a test on a nested generic type -/
+
+mutual
+/-- (test helper) the names and recorded positions of a data type reference and its arguments, in pre-order -/
+def spansT : TypeRef → List (String × Pos)
+  | .data n args _ p => (n, p) :: spansTs args
+  | .fn _ p => [("fn", p)]
+def spansTs : List TypeRef → List (String × Pos)
+  | [] => []
+  | a :: as => spansT a ++ spansTs as
+end
+
+/-- test: `map<string, list<a.b?>>? ;` on one line (real lexer, model parser): the outer reference spans columns 0–24
+    (everything but the `;`), its first argument `string` 4–10, its second argument `list<a.b?>` 12–22, whose own argument
+    `a.b?` spans 17–21: each argument lies strictly inside its parent, and the two arguments of `map` are disjoint and
+    in order -/
+example : (lex "map<string, list<a.b?>>? ;").bind (fun ts => (dataType 10 ts).map (fun (t, _) => spansT t)) =
+    some [("map", ⟨1, 0, 1, 24⟩), ("string", ⟨1, 4, 1, 10⟩), ("list", ⟨1, 12, 1, 22⟩), ("a.b", ⟨1, 17, 1, 21⟩)] := by
+  decide +kernel
+
+/-- test: a record field with a doc comment on the line above: the field spans from the comment to the `;`, its type
+    from after the `:` to before the `;` -/
+example : (lex "# doc\nx : list<i32> ;").bind (fun ts => (field 40 ts).map (fun (f, _) => (f.pos, spansT f.ty))) =
+    some (⟨1, 0, 2, 15⟩, [("list", ⟨2, 4, 2, 13⟩), ("i32", ⟨2, 9, 2, 12⟩)]) := by
+  decide +kernel
+
+#print axioms spanPos_eq_tokSpan
+#print axioms dataType_span
+#print axioms dataType_span_first_last
+#print axioms TySpan.arg_within
+#print axioms ArgsSpan.two_args_disjoint
+#print axioms typeRefL_span
+#print axioms functionL_span
+#print axioms paramL_span
+#print axioms field_span
+#print axioms typeDecl_pos
+#print axioms typeDecl_span
+#print axioms record_span
+#print axioms record_field_within
+#print axioms member_span
+#print axioms interface_span
+#print axioms dataType_text_span
+
 end Pydjinni.Front
